@@ -191,6 +191,9 @@ structure Pkt where
   pid : Option (Nat × Nat)     -- `get_fec_inline_payload_id`: (sbn, esi); none = `Err`
   plen : Nat                   -- payload length
   dlen : Nat                   -- length of the whole datagram (`pkt.data.len()`)
+  /-- the datagram itself (`pkt.data`), for object implementations that look at payload bytes; the
+      session level never reads it -/
+  raw : List Nat := []
   deriving DecidableEq, Repr, Inhabited
 
 /-- field ranges guaranteed by `parse_alc_pkt` / `parse_ext_fdt` / `parse_sct` -/
@@ -252,12 +255,14 @@ structure FdtRecv (σ : Type) where
   check : Bool
   /-- `meta.is_some()` -/
   hasMeta : Bool
+  /-- `inner.data.len()`: every `FdtWriter::write` appends, nothing ever bounds or clears it -/
+  bytes : Nat
 
 variable {σ : Type}
 
 def FdtRecv.new (I : ObjIface σ) (fdtId : Nat) (check : Bool) : FdtRecv σ :=
   { fdtId, obj := some (I.new 0 (1024 * 1024)), st := .receiving, expires := none, inst := none,
-    utf8 := false, offset := none, late := true, check, hasMeta := false }
+    utf8 := false, offset := none, late := true, check, hasMeta := false, bytes := 0 }
 
 /-- the calls the inner object makes on its `FdtWriter` change `inner` -/
 def FdtRecv.applyWEv (ans : FdtAns) (f : FdtRecv σ) : WEv → FdtRecv σ
@@ -267,6 +272,7 @@ def FdtRecv.applyWEv (ans : FdtAns) (f : FdtRecv σ) : WEv → FdtRecv σ
     | .err => { f with st := .error }
   | .error => { f with st := .error }
   | .interrupted => { f with st := .error }
+  | .write _ len => { f with bytes := f.bytes + len }
   | _ => f
 
 def FdtRecv.applyWEvs (ans : FdtAns) (f : FdtRecv σ) (evs : List WEv) : FdtRecv σ :=
